@@ -119,7 +119,13 @@ def main():
     cfg = C.config_name()
     res = C.Result("C05")
     thr = C.generated("py_curve_vs_threshold" if cfg == "pure" else "f90_curve_vs_threshold", 55)
-    btype = C.generated("f90_triangle_evaluate_barycentric_multi_binom_type", "int32")
+    btype = C.generated("f90_triangle_evaluate_barycentric_multi_binom_type", None)
+    if btype is None:
+        # the extractor no longer finds the declaration of the running binomial in evaluate_barycentric_multi (the routine was
+        # restructured): that is a broken obligation of Tables/C05 (reported by check.py), NOT a licence to file failures under the
+        # historical 32-bit key - the model variant with the real binomial (the repaired code) is used for the comparison
+        res.notes.append("binomial type of the compiled evaluate_barycentric_multi not extracted; comparing against the real-binomial variant")
+        btype = "real"
     int32 = (cfg == "speedup" and btype == "int32")
     kind = 0 if btype == "int32" else 1
     res.notes.append("config %s: model variant %s" % (cfg, "Py" if cfg == "pure" else "F90/" + btype))
@@ -231,6 +237,15 @@ def main():
             nodes = G.float_net(rnd, rnd.choice([2, 3]), G.tri_nodes_count(d), 0)
             add("edgecurves", "Triangle.edges", d, nodes, [(Fr(0),), (Fr(1),), (H,), (Q,), (Fr(rnd.uniform(0, 1)),)], "T")
             add("edges", "compute_edge_nodes", d, G.int_net(rnd, rnd.choice([1, 2, 3, 4]), G.tri_nodes_count(d), 99), [], "E")
+        # (e) LONG parameter arrays: a multi-point routine that works through the parameter rows in blocks must treat the rows beyond
+        # the first block like the others (block boundaries 1024 / 2048 / 4096 and beyond; seed C05_g: the num_vals x 3 parameter
+        # block of the compiled routine handed over with the stride of one block) - exact regime, every row compared bit for bit
+        for nrows in ([1025, 2049] if not thorough else [1023, 1024, 1025, 2048, 2049, 4097, 5000]):
+            for routine in ("evaluate_barycentric_multi", "evaluate_cartesian_multi", "Triangle.evaluate_barycentric_multi",
+                            "Triangle.evaluate_cartesian_multi"):
+                d = rnd.choice([1, 2, 3])
+                nodes = G.int_net(rnd, rnd.choice([1, 2, 3]), G.tri_nodes_count(d), 256)
+                add("eval", routine, d, nodes, [dyadic_triple(5) for _ in range(nrows)], "E", verify=False, label="long-%d" % nrows)
         # (d) the verification in front of the class methods (decision logic, boundary values)
         for d in (1, 2, 5):
             nodes = G.int_net(rnd, 2, G.tri_nodes_count(d), 16)
